@@ -16,8 +16,10 @@ import LyModel.Generated.Diff13
   `position` ↔ `orig-position` (`revMeta`); anything else is `LY_EINT`;
 * `none`: leaf / leaf-list — `revDefault`; inner nodes — nothing.
 
-The user-ordered part has the two defects of finding F15 (the moves keep their forward order; a reversed `delete`
-has no anchor) — they are in the model exactly as in the code.
+The user-ordered part of the pinned code (`reversePinned`) has the defects of finding F15 (the moves keep their forward order; a
+reversed `delete` has no anchor; position metadata merely switched) — they are in the model exactly as in the code.  The repair
+`fixes/F15.diff` (second pass `lyd_diff_reverse_userord_r`, `lyd_diff_reverse_position`) is modelled by `reverseRepaired` /
+`revPosition`; `reverse` follows `Generated.Diff13.reverseUserordRepaired`, which tools/extractors/diff13.py reads off the source.
 
 Not modelled: the default flag of non-presence containers in the result (`lyd_change_term` inside `revValue` clears it
 on the ancestors although the leaf's own flags are restored afterwards; `lyd_dup_r` re-derives it).  `lyd_diff_apply_all`
